@@ -258,7 +258,7 @@ func steps(thorough bool) []step {
 			if shared.Format != "" {
 				return fmt.Sprintf("WriteFileWithOptions wrote format %q into the per-call options value it was handed", shared.Format)
 			}
-			if i.want.Format == "" {
+			if unwritable(i.want.Format) {
 				if err == nil {
 					return fmt.Sprintf("writer #%d has no format and the per-call options name none, yet the write succeeded", k)
 				}
@@ -281,7 +281,7 @@ func steps(thorough bool) []step {
 		f := filepath.Join(os.Getenv("MCVERIF_SCRATCH"), fmt.Sprintf("c18-%d.wf", os.Getpid()))
 		defer os.Remove(f)
 		err := i.w.WriteFile(testDoc(), f)
-		if i.want.Format == "" {
+		if unwritable(i.want.Format) {
 			if err == nil {
 				return "a writer constructed without format wrote a file successfully (format leaked from elsewhere)"
 			}
@@ -323,7 +323,7 @@ func steps(thorough bool) []step {
 		i := w.ws[len(w.ws)-1]
 		var buf bytes.Buffer
 		err := i.w.WriteStream(testDoc(), nopCloser{&buf})
-		if i.want.Format == "" {
+		if unwritable(i.want.Format) {
 			if err == nil {
 				f, _ := rw.Sniff(bytes.NewReader(buf.Bytes()))
 				return fmt.Sprintf("a writer constructed without format wrote successfully as %q (format leaked from elsewhere)", f)
@@ -605,6 +605,22 @@ func steps(thorough bool) []step {
 	cornerW("Render(indent 2),Render(indent -3)", func() []writer.WriterOption {
 		return []writer.WriterOption{writer.WithRenderOptions(&native.RenderOptions{Indent: 2}), writer.WithRenderOptions(&native.RenderOptions{Indent: -3})}
 	})
+	// a format nobody registered a serializer for: the option records what it was given (writes then fail, as they do
+	// for an instance without format); the expected value is stated, not taken from the instance
+	out = append(out, step{Corner: true, Ctor: true, Name: "writer.New(Format(unregistered))", Do: func(w *world) string {
+		rec := &recorder{}
+		wr := writer.New(writer.WithStoreRetriever(rec), writer.WithFormat(unregisteredFormat))
+		o := wr.Options
+		if o == nil || o.RenderOptions == nil || o.StoreOptions == nil || o.SerializeOptions == nil {
+			return fmt.Sprintf("writer.New(Format(unregistered)) yields an instance with missing option structs: %+v", o)
+		}
+		if o.Format != unregisteredFormat {
+			return fmt.Sprintf("writer.New(WithFormat(%q)): Options.Format=%q (the instance's configuration is what its own options say, over the defaults)", unregisteredFormat, o.Format)
+		}
+		got := wcfg{Format: o.Format, Indent: o.RenderOptions.Indent, NoClobber: o.StoreOptions.NoClobber, FmtOpt: o.GetFormatOptions("k"), Backend: o.StoreOptions.BackendOptions}
+		w.ws = append(w.ws, &winst{w: wr, rec: rec, want: got, corner: "Format(unregistered)", born: got})
+		return ""
+	}})
 	cornerW("Format(empty)", func() []writer.WriterOption { return []writer.WriterOption{writer.WithFormat("")} })
 	cornerW("Format(spdx23),Format(empty)", func() []writer.WriterOption {
 		return []writer.WriterOption{writer.WithFormat(formats.SPDX23JSON), writer.WithFormat("")}
@@ -705,6 +721,11 @@ func observe(w *world) string {
 }
 
 // Aux runs one history in this (fresh) process: args = tier, then step indices.
+const unregisteredFormat = formats.Format("application/x-nobody-registered-this")
+
+// unwritable: a writer whose format is empty or has no serializer cannot write; its write calls fail.
+func unwritable(f formats.Format) bool { return f == "" || f == unregisteredFormat }
+
 func Aux(args []string) int {
 	rw.SilenceStdout()
 	all := steps(args[0] == "thorough")
